@@ -81,7 +81,8 @@ class Scratch:
         self.dir = tempfile.mkdtemp(prefix='kira-kani-', dir=base)
         self.crate = os.path.join(self.dir, 'kira')
         self.keep = keep
-        self.modules = sorted(set(modules))
+        # `info` carries the Info constructors every object-level harness module uses
+        self.modules = sorted(set(modules) | ({'info'} if modules else set()))
         self.injected = []
         self._build()
 
@@ -110,7 +111,7 @@ class Scratch:
             os.makedirs(os.path.join(self.crate, 'src', mod), exist_ok=True)
             shutil.copy(hfile, os.path.join(self.crate, 'src', mod, 'kani_proofs.rs'))
             with open(parent, 'a') as f:
-                f.write('\n#[cfg(kani)]\nmod kani_proofs;\n')
+                f.write('\n#[cfg(kani)]\npub(crate) mod kani_proofs;\n')
             self.injected.append('src/%s.rs: +mod kani_proofs' % mod)
         self._inject_contracts()
         self._rewrite_float_rem()
